@@ -33,7 +33,9 @@ func (ds *dataStore) save(fileName string) (err error) {
 		os.Remove(tempName)
 		return
 	}
+	verifPoint("save.beforerename", 0)
 	err = os.Rename(tempName, fileName)
+	verifPoint("save.renamed", 0)
 	return
 }
 
@@ -52,6 +54,7 @@ func (ds *dataStore) saveTo(fileName string) (err error) {
 	}()
 
 	enc := gob.NewEncoder(f)
+	verifPoint("save.created", 0)
 
 	// write the header
 	ph := persistHeader{
@@ -64,6 +67,7 @@ func (ds *dataStore) saveTo(fileName string) (err error) {
 	if err = enc.Encode(ph); err != nil {
 		return
 	}
+	verifPoint("save.header", 0)
 
 	// write the data
 	for _, item := range ds.data.buckets {
@@ -112,8 +116,10 @@ func (ds *dataStore) saveTo(fileName string) (err error) {
 		if err != nil {
 			return
 		}
+		verifPoint("save.key", int64(sk.id))
 	}
 
+	verifPoint("save.beforeclose", 0)
 	return
 }
 
